@@ -149,6 +149,25 @@ func (c *ctl) InvokeUserMessage(m interface{}) {
 }
 func (c *ctl) EscalateFailure(reason interface{}, message interface{}) {}
 
+// bystander: invoker + dispatcher of the second mailbox (its scheduled runs are deferred)
+type bystander struct {
+	fns []func()
+	got []int
+}
+
+func (b *bystander) Schedule(fn func()) { b.fns = append(b.fns, fn) }
+func (b *bystander) Throughput() int    { return 99 }
+func (b *bystander) InvokeSystemMessage(m interface{}) {}
+func (b *bystander) InvokeUserMessage(m interface{}) {
+	if u, ok := m.(*umsg); ok {
+		b.got = append(b.got, u.id)
+	}
+}
+func (b *bystander) EscalateFailure(reason interface{}, message interface{}) {}
+
+var producer = mailbox.Producer(10)
+var caseNo int
+
 // suspend / resume carry ids too: wrap by remembering the order they were pushed
 type poster struct {
 	kind string // u or s
@@ -186,8 +205,17 @@ func ids(l []int) string {
 // runCase executes one case. `choose` picks the next thread among the parked ones.
 func runCase(h *hx.T, posters []poster, choose func(c *ctl, parked []*thread, step int) *thread) {
 	c := &ctl{byGoid: map[int64]*thread{}}
+	// a bystander mailbox made by the SAME producer (one Props spawning several actors): a message
+	// is posted to it now and its run is deferred until this case is over; mailboxes must not share state
+	caseNo++
+	mailbox.VerifYield = nil
+	by := &bystander{}
+	mbB := producer()
+	mbB.RegisterHandlers(by, by)
+	byID := 777000 + caseNo
+	mbB.PostUserMessage(&umsg{id: byID})
 	mailbox.VerifYield = c.yield
-	mb := mailbox.Producer(10)().(*mailbox.SmoothFrameMailbox)
+	mb := producer().(*mailbox.SmoothFrameMailbox)
 	mb.RegisterHandlers(c, c)
 	c.mb = mb
 	c.startConsumer()
@@ -314,6 +342,17 @@ func runCase(h *hx.T, posters []poster, choose func(c *ctl, parked []*thread, st
 	if alive > 0 {
 		quiet = 0
 	}
+	defer func() {
+		mailbox.VerifYield = nil
+		for _, fn := range by.fns {
+			fn()
+		}
+		obs := "ok"
+		if len(by.got) != 1 || by.got[0] != byID {
+			obs = fmt.Sprintf("bystander-received=%v want=[%d]", by.got, byID)
+		}
+		h.Emit("bystander", obs)
+	}()
 	h.Emit("quiesce", fmt.Sprintf("quiet=%d st=%d um=%d sm=%d susp=%d paused=%d du=%s ds=%s", quiet, st, um, sm, susp, paused, ids(c.dlvU), ids(c.dlvS)))
 }
 
